@@ -8,6 +8,7 @@ package main
 // stderr capture and turns that into "restart-failed:<panic>".
 
 import (
+	"bytes"
 	"encoding/hex"
 	"encoding/json"
 	"fmt"
@@ -176,10 +177,7 @@ func inspectMain(dir, scriptPath, oplogPath, outPath string) {
 	}
 
 	// The restart happens at a clock at which no catch-up rotation is due.
-	off := cands[0].m.Offset
-	if _, torn := F.Torn["allDeviceStats.dat"]; !torn {
-		off = F.Offset
-	}
+	off := F.Offset
 	drv.SetClock(off + 100)
 	drv.GateRotation(true)
 	drv.GateImpact(true)
@@ -209,24 +207,38 @@ func inspectMain(dir, scriptPath, oplogPath, outPath string) {
 	if _, t := F.Torn["equipment-reports.dat"]; t {
 		tornSec["slots"] = true
 	}
-	if _, t := F.Torn["allDeviceStats.dat"]; t {
-		tornSec["slots"], tornSec["offset"] = true, true
-	}
 	var dF2 []string
 	for _, s := range dF {
 		if !tornSec[s] {
 			dF2 = append(dF2, s)
 		}
 	}
-	if _, t := F.Torn["allDeviceStats.dat"]; !t {
-		if !statsEqualBytes(st1, F.Stats) {
-			dF2 = append(dF2, "archive")
-		}
+	if !statsEqualBytes(st1, F.Stats) {
+		dF2 = append(dF2, "archive")
 	}
 	if len(dF2) > 0 {
 		in.viol("recovered-state-differs-from-files:"+joinSorted(dF2), "the restarted server's state differs from what the reference decoders and rules derive from the files in sections %v (files: %v)", dF2, disk0.sizes())
 	} else {
 		in.count("recovered.equals_files")
+	}
+	// file = memory after the recovery: the history file holds exactly the
+	// reference encoding of the archived weeks the server now serves
+	var want []byte
+	for _, rec := range st1 {
+		want = append(want, rec.Bytes()...)
+	}
+	if got := readDisk(dir)["allDeviceStats.dat"]; !bytes.Equal(got, want) {
+		in.viol("archive-file-differs-from-memory-after-restart", "after the restart allDeviceStats.dat has %d bytes, the %d archived weeks in memory encode to %d bytes (before the restart the file had %d bytes)", len(got), len(st1), len(want), len(disk0["allDeviceStats.dat"]))
+	} else {
+		in.count("archive_file_equals_memory")
+	}
+	// a rotation a snapshot showed as done while it was running must have survived
+	for i, off := range lg.Visible {
+		if S1.Offset < off {
+			in.viol("rotation-visible-before-durable", "while rotation op %d was running a snapshot of the victim showed window offset %d (its week served as archived), after the crash the server is back at offset %d with %d archived weeks: the rotation was visible before its record was on disk", i, off, S1.Offset, len(S1.History))
+		} else {
+			in.count("rotation_visible_and_recovered")
+		}
 	}
 	for i, rec := range st1 {
 		if !verifyC(S1.ServerPubKey, rec.SigningBytes(), rec.Sig) {
